@@ -17,6 +17,7 @@ ASSUMPTIONS = [
     "not decided: wall-clock monotonicity; `as u32` truncation of the timestamp in 2106",
     "trusted: rustc MIR construction/trait resolution; rusqlite binds ?n to the n-th params![] element",
 ]
+EXPLANATION += '; also: the client identity is the client-id option verbatim (else chaddr); no second uniqueness constraint (UNIQUE column or index) on the lease table; SQL batches, CREATE TABLE AS and RENAME are parsed'
 EXTRA_CONFIGS = ["dhcp"]
 
 
